@@ -7,6 +7,7 @@ THEOREM_FILE = "Props/C05.v"
 EXTRA_THEOREM_FILES = ["Props/C05_src.v"]     # source tie: translated source = model (DESIGN 5.1b)
 EXTRA_THEOREM_FILES.append("Props/C05_src_merge.v")     # (SRCE) source tie of cidr_merge / IPRange.cidrs
 EXTRA_THEOREM_FILES.append("Props/C05_code.v")     # (CODA) code-level theorems: the property about the regenerated definitions
+EXTRA_THEOREM_FILES.append("Props/C05_src_g.v")     # SRCG: iter_unique_ips (tie + the enumeration theorem)
 RULE = ("iprange_to_cidrs: every (lo, hi) inside each small arena exhaustively (quick: sampled), boundary-aligned and "
         "random intervals of every (alignment of lo, alignment of hi, length) class at both ends of both address spaces, "
         "start/end given as addresses and as networks; cidr_merge: multisets of <=14 items from an arena in random order "
